@@ -22,8 +22,8 @@ META = {
     "ready": True,
     "category": "proof",
     "technique": "Lean 4 model of steel's syntax-rules machinery (pattern compilation, match_list_pattern, collect_bindings, definition-time ## renaming, ReplaceExpressions, Expander) + R7RS/Kohlbecker specification; theorems about matching/instantiation (incl. agreement of steel's matcher and instantiator with the R7RS ones), positive binder-hygiene, scoping and referential-transparency theorems by induction over the model's own functions, the guarded hygiene statement with decided negation witnesses; differential runs real SteelMacro / real Engine vs model vs specification (single programs, multi-evaluation histories on one engine that continue after failing expansions, module chains x multi-unit histories), with the guard G evaluated by the driver on every program; translator obligation bindings_cleared_before_match (translate/c13_clears.py: the three thread-local binding maps are cleared before collect_bindings, as the model assumes)",
-    "level_text": "Proved for all patterns / forms / programs (SteelVerif/C13/Props.lean, induction, no bounds): match_exact, match_complete, match_literal, expand_fuel_mono. Positive hygiene: introduced_binders_fresh (every binder position of a stored template is spelled ##..., distinct from every identifier of a macro use); the hypothesis that source identifiers never begin with ## is checked on the REAL reader on every run (generated ## stream; the lemma reader_rejects_double_hash on the C12 lexer model lives in C13/ReaderHash.lean, outside the audited set, so that C13 does not depend on the state of C12's sources); expansion_names (one expansion step only produces identifiers of the use's arguments, non-binder atoms of the stored template, or ##-names; also evaluated on the REAL expansion of every unit case); hygiene_user_binders / hygiene_user_binders_src (the same invariant for whole programs: nested uses, recursion, expansion to fixed point, NO guard); user_forms_not_captured and user_form_meaning_unchanged (the resolution of a user identifier and the canonical form of a user sub-form do not depend on the ##-binders in scope); template_free_ids_resolve_globally (under G.a a template's free identifier resolves to the definition-site global); scoping_under_Gd (when flag d is not raised, every ##-name that occurs in a stored template outside the lexical scope of every binder of its spelling is a mangled pattern variable: template-introduced ##x only occur in the scope of a binder ##x - alignment of the renaming's single unscoped state with lexical scoping, all templates). Agreement with R7RS: match_spec (for EVERY well-formed pattern list - nesting, literals, constants, one ellipsis per list over any sub-pattern, dotted tails - steel's match_list_pattern + collect_bindings succeeding implies the R7RS matcher succeeds with the same bindings, steel's nested lists being the flattening of the binding trees); instantiate_agree / instantiate_spec_partial (on templates in which every ellipsis follows an identifier, at most one per list, any nesting and improper lists, steel's ReplaceExpressions and the R7RS instantiator agree up to the expander flags whenever both succeed). G_iff (G = conjunction of the seven negated class predicates K13a,b,c,d,f,g,j); not_hygiene_a..d,j: the full statement is false, one decided witness per violated conjunct (j: a template list with two ellipses - found through the case split of instantiate_agree, replayed on the real engine). STILL NOT proved: hygiene_partial (G prog -> M expansion alpha-equivalent to the ideal expansion S; kept as HygienePartial) and the full InstantiateSpec: missing are the instantiator agreement for sub-templates followed by an ellipsis and the success direction, the correspondence stored template (##-names, flags) vs stamped template together with the canon simulation for one instance (single-level hygiene), and the simulation between the ##-names of several instances and S's per-step stamps under G.b. Inside G the full statement rests on the differential run: real SteelMacro vs model (exact expansion text) and vs R7RS specification on generated pattern/form pairs, real Engine vs model vs specification (values that reveal which binding each identifier resolved to) on generated programs; any real != S inside G is a VIOLATION.",
-    "level_note": "Trusted: Lean kernel, harness/driver/comparison, hand-written model (tied to /repo by the unit- and program-level correspondence on every run). The guard that decides is the Lean one (classify, printed by the driver per program); the python mirror is a static over-approximation, checked to contain the driver's class on every program, and is never used to excuse a disagreement. Modules, kernel (defmacro) macros, vectors/strings/quote patterns, set! and syntax-case are not modelled; canonRef (resolution after expansion, incl. the lost `unresolved` flag of the spelling `list`) is a model of compiler/passes/shadow.rs observed on the engine, not translated from it - the thorough tier shows one program family (findings/C13-K13k.txt) on which the real engine resolves a template's `list` dynamically, differently from this model. Proposed findings K13j / K13k / K13l are not yet listed in KNOWN_FINDINGS.txt: the generator kind `twoell` is switched on by the K13j entry; the module family `laterbody-*` (an imported macro in a later body expression of a let in module code) is decided as soon as K13l is listed or the proposed fix (.build/C13/proposed-expandermany-let-bodies.diff) is applied, until then it is reported as a note.",
+    "level_text": "Proved for all patterns / forms / programs (SteelVerif/C13/Props.lean, induction, no bounds): match_exact, match_complete, match_literal, expand_fuel_mono. Positive hygiene: introduced_binders_fresh (every binder position of a stored template is spelled ##..., distinct from every identifier of a macro use); the hypothesis that source identifiers never begin with ## is checked on the REAL reader on every run (generated ## stream; the lemma reader_rejects_double_hash on the C12 lexer model lives in C13/ReaderHash.lean, outside the audited set, so that C13 does not depend on the state of C12's sources); expansion_names (one expansion step only produces identifiers of the use's arguments, non-binder atoms of the stored template, or ##-names; also evaluated on the REAL expansion of every unit case); hygiene_user_binders / hygiene_user_binders_src (the same invariant for whole programs: nested uses, recursion, expansion to fixed point, NO guard); user_forms_not_captured and user_form_meaning_unchanged (the resolution of a user identifier and the canonical form of a user sub-form do not depend on the ##-binders in scope); template_free_ids_resolve_globally (under G.a a template's free identifier resolves to the definition-site global); scoping_under_Gd (when flag d is not raised, every ##-name that occurs in a stored template outside the lexical scope of every binder of its spelling is a mangled pattern variable: template-introduced ##x only occur in the scope of a binder ##x - alignment of the renaming's single unscoped state with lexical scoping, all templates). Agreement with R7RS: match_spec (for EVERY well-formed pattern list - nesting, literals, constants, one ellipsis per list over any sub-pattern, dotted tails - steel's match_list_pattern + collect_bindings succeeding implies the R7RS matcher succeeds with the same bindings, steel's nested lists being the flattening of the binding trees); instantiate_agree / instantiate_spec_partial / instantiate_total (on templates in which every ellipsis follows an identifier, at most one per list, any nesting and improper lists, steel's ReplaceExpressions and the R7RS instantiator agree up to the expander flags; success direction: if steel's succeeds and the variables are used at the depth of their binding trees, the R7RS one succeeds with the specification's fuel). canon_of_related / alpha_of_related (the hygienic-renaming relation FR between what steel's expander and the ideal expander produce - user identifiers equal, ##s related to s%k by the INNERMOST ##s binder in scope so that several template instances of one spelling are covered, flagged free identifiers related to s%k when nothing captures them, lambda and let binders pairwise - implies equal canonical forms, hence alphaEq; what remains for single-level and nested hygiene is to show that the two expansions ARE related). G_iff (G = conjunction of the seven negated class predicates K13a,b,c,d,f,g,j); not_hygiene_a..d,j: the full statement is false, one decided witness per violated conjunct (j: a template list with two ellipses - found through the case split of instantiate_agree, replayed on the real engine). STILL NOT proved: hygiene_partial (G prog -> M expansion alpha-equivalent to the ideal expansion S; kept as HygienePartial) and the full InstantiateSpec: missing are the instantiator agreement for sub-templates followed by an ellipsis and the success direction, the correspondence stored template (##-names, flags) vs stamped template together with the canon simulation for one instance (single-level hygiene), and the simulation between the ##-names of several instances and S's per-step stamps under G.b. Inside G the full statement rests on the differential run: real SteelMacro vs model (exact expansion text) and vs R7RS specification on generated pattern/form pairs, real Engine vs model vs specification (values that reveal which binding each identifier resolved to) on generated programs; any real != S inside G is a VIOLATION.",
+    "level_note": "Trusted: Lean kernel, harness/driver/comparison, hand-written model (tied to /repo by the unit- and program-level correspondence on every run). The guard that decides is the Lean one (classify, printed by the driver per program); the python mirror is a static over-approximation, checked to contain the driver's class on every program, and is never used to excuse a disagreement. Modules, kernel (defmacro) macros, vectors/strings/quote patterns, set! and syntax-case are not modelled; canonRef (resolution after expansion, incl. the lost `unresolved` flag of the spelling `list`) is a model of compiler/passes/shadow.rs observed on the engine, not translated from it - K13k (findings/C13-K13k.txt: after inlining, the shadow pass skips the template's still-`unresolved` occurrence of a renamed parameter, which then refers to the caller's binder) is the one place where the real engine and this model differ: such programs are attributed to K13k by the class predicate (class a + a define whose parameter is spelled like a template free identifier + a binder of that spelling) AND the observed failure shape (the real value is the model's value with the tag of one such binder for another); a second, narrower attribution by failure shape: where the real engine rejects at compile time (inside procedure bodies) what the model's lazy value function only meets when it is evaluated - a leftover ellipsis token (K13j) or a template identifier renamed to a free ##x (K13a) - the driver reports the static defect of M's own expansion (`staticM`) and the case is attributed only if the class holds, staticM names that defect and the real engine raised an error. The module family `laterbody-*` (K13l, fixed in c3d59a73) must pass as real == S.",
 }
 
 FINDING_CLASSES = {
@@ -772,6 +772,29 @@ def decide(ctx, st, kind, text, real, drv, known, label):
         return
     st.real_ne_S += 1
     fid = None
+    if kind == "prog" and not eq_rm and norm_val(real) == "err" and norm_m(d.get("valM", "")).startswith("ok"):
+        # the real engine rejects at COMPILE time (in procedure bodies, not in top-level expressions) what the lazy
+        # value function of the model only meets when it is evaluated: a leftover ellipsis token (K13j) or a
+        # template identifier renamed to a free `##x` (K13a).  Attributed by the class predicate AND that shape:
+        # the driver finds the static defect in M's own expansion (`staticM`) and the real engine raises an error.
+        sm = d.get("staticM", "none")
+        for c_, want in (("j", "BadSyntax"), ("a", "FreeIdentifier")):
+            k_ = FINDING_CLASSES[c_][0]
+            if c_ in cls and sm == want and k_ in known:
+                ctx.known_finding("id=%s class=%s %s" % (k_, FINDING_CLASSES[c_][1], known[k_]))
+                st.known_hits[k_] = st.known_hits.get(k_, 0) + 1
+                st.real_ne_M_attributed = getattr(st, "real_ne_M_attributed", 0) + 1
+                st.real_ne_M.pop()
+                return
+    if kind == "prog" and "a" in cls and not eq_rm and "K13k" in known and k13k_shape(text, real, d.get("valM", "")):
+        # K13k: the inliner makes a template's free identifier inside (define (f p) …) resolve to the binder spelled p
+        # in whose extent f is called.  Attributed by the class predicate (class a + such a define + such a binder) AND
+        # the observed way of failing: the real value is the model's value with the tag of one p-binder for another
+        ctx.known_finding("id=K13k class=%s %s" % (FINDING_CLASSES["a"][1], known["K13k"]))
+        st.known_hits["K13k"] = st.known_hits.get("K13k", 0) + 1
+        st.real_ne_M_attributed = getattr(st, "real_ne_M_attributed", 0) + 1
+        st.real_ne_M.pop()
+        return
     if cls and eq_rm:
         for c in cls:
             k = FINDING_CLASSES.get(c)
@@ -894,6 +917,30 @@ class HistGen:
                 pieces.append("(list %s)" % g.use(name, macros, list(users), 2))
         pieces = pieces[:len(defs) + len(globs)] + g.pending_defs + pieces[len(defs) + len(globs):]
         return " ;;;--- ".join(pieces)
+
+
+FREE_SPELLINGS = ("list", "g1", "g2")
+
+
+def k13k_shape(text, real, model):
+    """class predicate + failure shape of K13k (see findings/C13-K13k.txt)"""
+    params = set(re.findall(r"\(define \([^\s()]+ (?:[^()]*\s)?(%s)(?:\s[^()]*)?\)" % "|".join(FREE_SPELLINGS), text))
+    if not params:
+        return False
+    binder_tags = set()
+    for p_ in params:
+        binder_tags |= set(re.findall(r"\(%s \(lambda args \(cons (\d+) args\)\)\)" % re.escape(p_), text))       # let binders
+        binder_tags |= set(re.findall(r"\(lambda \(%s\) [^\n]*?\) \(lambda args \(cons (\d+) args\)\)\)" % re.escape(p_), text))
+    arg_tags = set(re.findall(r"\(lambda args \(cons (\d+) args\)\)", text))
+    if not binder_tags:
+        return False
+    r, m = norm_val(real), norm_m(model)
+    if not (r.startswith("ok") and m.startswith("ok")) or r == m:
+        return False
+    mask = lambda v: re.sub(r"\b(%s)\b" % "|".join(sorted(arg_tags, key=len, reverse=True)), "T", v)
+    # the real value uses a tag of a binder of that spelling where the model has the tag of the argument
+    rt = set(re.findall(r"\d+", r)) & binder_tags
+    return mask(r) == mask(m) and bool(rt)
 
 
 def harness_bin():
@@ -1179,8 +1226,8 @@ def run(ctx):
                               "# the real reader/engine accepted (or crashed on) a program with an identifier that begins with the mangling prefix ##: the hypothesis noHashList of introduced_binders_fresh / user_forms_not_captured does not hold for source text\nprog %s\n# real = %s\n" % (t, r))
 
     quick = ctx.quick()
-    nprog = 400 if quick else 12000
-    nunit = 3000 if quick else 40000
+    nprog = 400 if quick else 8000
+    nunit = 3000 if quick else 24000
     g = Gen(rng, 3 if quick else 6, 2 if quick else 3, not quick)
     # templates with two ellipses in one list (class j): generated once K13j is listed as an open finding
     # (until then every such program is a VIOLATION by the protocol; the witness is findings/C13-K13j.txt)
@@ -1196,7 +1243,7 @@ def run(ctx):
         for i in range(0, len(texts), pchunk):
             jobs.append(("prog", texts[i:i + pchunk], "gen-" + name))
     hg = HistGen(rng, Gen(rng, 3, 2, False))
-    htexts = [hg.history() for _ in range(120 if quick else 3000)]
+    htexts = [hg.history() for _ in range(120 if quick else 1000)]
     for i in range(0, len(htexts), 60 if quick else 500):
         jobs.append(("hist", htexts[i:i + (60 if quick else 500)], "gen-hist"))
     ug = UnitGen(rng, 2 if quick else 3)
@@ -1234,7 +1281,7 @@ def run(ctx):
         "rule": "programs: 1-%d macros drawn from 12 shapes (or2-like let binder, lambda binder, free-identifier wrapper, recursive, nested user of another macro, my-let + user, literal, literal passing, ellipsis depth 2/3, dotted, ellipsis+dotted) with spellings from small pools so that collisions occur; 1-3 uses at top level / under let / lambda / define parameters that do or do not shadow template binders, template free identifiers and literals; every binder bound to a distinct tag; distinct = distinct (S result, class). unit: random patterns (literals, nested, one ellipsis per list, dotted tails, depth <= %d) with a revealing template, instances of the pattern and mutated instances" % (g.max_macros, g.max_depth),
         "samples": st.samples, "real_eq_S": st.real_eq_S, "real_ne_S": st.real_ne_S, "inside_G": st.inside_G, "inside_G_real_ne_S": st.inside_G_ne_S,
         "expansion_names_checked_on_real": st.names_checked, "hash_prefix_stream": st.hash_prefix,
-        "real_ne_M": len(st.real_ne_M), "by_class": st.by_class, "known_finding_hits": st.known_hits,
+        "real_ne_M": len(st.real_ne_M), "real_ne_M_attributed_by_failure_shape": getattr(st, "real_ne_M_attributed", 0), "by_class": st.by_class, "known_finding_hits": st.known_hits,
         "violations_not_written": getattr(st, "more_violations", 0),
         "module_cases": mod_results, "mirror_disagreements": len(st.mirror_disagree),
         "axioms": pr.get("axioms", {}), "proof_failures": ["%s: %s" % f for f in pr["failed"]],
